@@ -3,6 +3,179 @@
 // Contracts for package internal/fees (comment-only; read by /verif/cmd/govc).
 package fees
 
-//@ func (*Manager).Fee
-//@   trusted
-//@   noframe
+// ---------------------------------------------------------------------------------
+// fee-market rule (C13)
+// ---------------------------------------------------------------------------------
+
+// rolled: slot i after rolling by s seconds; upd: after also adding the parent's
+// consumption c into slot 9-s (saturating) when s < 10; total: saturating sum.
+//@ spec opaque func rolled(w window.Window, s int, i int) int = ite(i + s < 10, window.slot(w, i + s), 0)
+//@ spec opaque func upd(w window.Window, c int, s int, i int) int = ite(s < 10 && i == 9 - s, min(MAX, rolled(w, s, i) + c), rolled(w, s, i))
+//@ spec opaque func total(w window.Window, c int, s int) int = min(MAX, upd(w,c,s,0)+upd(w,c,s,1)+upd(w,c,s,2)+upd(w,c,s,3)+upd(w,c,s,4)+upd(w,c,s,5)+upd(w,c,s,6)+upd(w,c,s,7)+upd(w,c,s,8)+upd(w,c,s,9))
+// the proportional change, at least one unit, in exact (unbounded) arithmetic
+//@ spec opaque func delta(p int, excess int, target int, denom int) int = max(1, ((p * excess) / target) / denom)
+
+// the fee-market rule as a function of the window total T (k = number of whole windows
+// elapsed, at least 1): rise by delta above target, fall by k*delta below, never below minP.
+//@ spec func nextFromTotal(p int, T int, target int, denom int, minP int, k int) int = ite(T > target, max(minP, min(MAX, p + delta(p, T - target, target, denom))), ite(T < target, max(minP, max(0, p - k * delta(p, target - T, target, denom))), max(minP, p)))
+
+// A higher window usage never yields a lower next price.
+//@ lemma delta_monotone props C13 reveal delta: forall p int, e1 int, e2 int, t int, d int :: 0 <= p && 0 <= e1 && e1 <= e2 && t > 0 && d > 0 ==> delta(p, e1, t, d) <= delta(p, e2, t, d) && delta(p, e1, t, d) >= 1
+//@ lemma price_monotone props C13 uses delta_monotone: forall p int, t1 int, t2 int, target int, denom int, minP int, k int :: 0 <= p && p <= MAX && 0 <= t1 && t1 <= t2 && t2 <= MAX && target > 0 && denom > 0 && 0 <= minP && minP <= MAX && k >= 1 ==> nextFromTotal(p, t1, target, denom, minP, k) <= nextFromTotal(p, t2, target, denom, minP, k)
+
+// priceDelta computes the proportional change without intermediate overflow
+// (math/big is modelled as mathematical integers), saturating at MAX.
+//@ func priceDelta props C13
+//@   reveal delta
+//@   requires target > 0 && changeDenom > 0
+//@   ensures result == min(MAX, delta(price, excess, target, changeDenom))
+
+//@ func computeNextPriceWindow props C13
+//@   reveal rolled upd total
+//@   requires target > 0 && changeDenom > 0
+//@   let T = total(previous, previousConsumed, since)
+//@   let k = ite(since > 10, since / 10, 1)
+//@   at call 2 assert start == 8 * (9 - since) && start / 8 == 9 - since
+//@   at call 2 assert forall i int :: 0 <= i && i < 10 ==> window.slot(newRollupWindow, i) == upd(previous, previousConsumed, since, i)
+//@   at call 3 assert forall i int :: 0 <= i && i < 10 ==> window.slot(newRollupWindow, i) == upd(previous, previousConsumed, since, i)
+//@   at call 3 assert total == T
+//@   ensures forall i int :: 0 <= i && i < 10 ==> window.slot(result1, i) == upd(previous, previousConsumed, since, i)
+//@   ensures result0 >= minPrice
+//@   ensures result0 == nextFromTotal(previousPrice, T, target, changeDenom, minPrice, k)
+
+// ---------------------------------------------------------------------------------
+// fee manager state layout: [time 8][dimension d: price 8 | window 80 | lastConsumed 8] x 5
+// ---------------------------------------------------------------------------------
+//@ spec func wellFormed(f *Manager) bool = len(f.raw) == 488
+//@ spec opaque func price(raw []byte, d int) int = be64(raw, 8 + 96*d)
+//@ spec opaque func last(raw []byte, d int) int = be64(raw, 8 + 96*d + 88)
+//@ spec func winByte(raw []byte, d int, j int) int = raw[8 + 96*d + 8 + j]
+
+//@ func (*Manager).unitPrice props C12 C13 C03
+//@   reveal price last
+//@   requires wellFormed(f) && 0 <= d && d < 5
+//@   ensures result == price(f.raw, d)
+
+//@ func (*Manager).lastConsumed props C12 C13
+//@   reveal price last
+//@   requires wellFormed(f) && 0 <= d && d < 5
+//@   ensures result == last(f.raw, d)
+
+//@ spec func winOf(raw []byte, d int) window.Window = window.Window(raw[8 + 96*d + 8 : 8 + 96*d + 88])
+//@ func (*Manager).window props C13
+//@   reveal price last
+//@   requires wellFormed(f) && 0 <= d && d < 5
+//@   ensures result == winOf(f.raw, d)
+
+//@ func (*Manager).setUnitPrice props C13 C27
+//@   reveal price last
+//@   requires wellFormed(f) && 0 <= d && d < 5
+//@   modifies f.raw[]
+//@   ensures price(f.raw, d) == price
+//@   ensures forall j int :: 0 <= j && j < 488 && (j < 8 + 96*d || j >= 8 + 96*d + 8) ==> f.raw[j] == old(f.raw[j])
+
+//@ func (*Manager).setLastConsumed props C12
+//@   reveal price last
+//@   requires wellFormed(f) && 0 <= d && d < 5
+//@   modifies f.raw[]
+//@   ensures last(f.raw, d) == consumed
+//@   ensures forall j int :: 0 <= j && j < 488 && (j < 8 + 96*d + 88 || j >= 8 + 96*d + 96) ==> f.raw[j] == old(f.raw[j])
+
+// Consume is all-or-nothing: on success every dimension grows by exactly d[i] and stays
+// within l[i]; on failure nothing changes and the reported dimension is one that does not fit.
+//@ func (*Manager).Consume props C12
+//@   reveal price last
+//@   requires wellFormed(f)
+//@   modifies f.raw[]
+//@   ensures result0 ==> forall i int :: 0 <= i && i < 5 ==> last(f.raw, i) == old(last(f.raw, i)) + d[i] && last(f.raw, i) <= l[i]
+//@   ensures !result0 ==> forall j int :: 0 <= j && j < 488 ==> f.raw[j] == old(f.raw[j])
+//@   ensures !result0 ==> 0 <= result1 && result1 < 5 && (old(last(f.raw, result1)) + d[result1] > MAX || old(last(f.raw, result1)) + d[result1] > l[result1])
+//@   ensures forall i int :: 0 <= i && i < 5 ==> price(f.raw, i) == old(price(f.raw, i))
+//@   ensures forall i int, j int :: 0 <= i && i < 5 && 0 <= j && j < 80 ==> winByte(f.raw, i, j) == old(winByte(f.raw, i, j))
+
+// Fee is the exact sum of price*units over the five dimensions, or an error iff that exceeds MaxUint64.
+//@ spec func feeOf(raw []byte, d fees.Dimensions) int = price(raw,0)*d[0] + price(raw,1)*d[1] + price(raw,2)*d[2] + price(raw,3)*d[3] + price(raw,4)*d[4]
+//@ func (*Manager).Fee props C03 C12
+//@   reveal price last
+//@   requires wellFormed(f)
+//@   ensures (err == nil) == (feeOf(f.raw, d) <= MAX)
+//@   ensures err == nil ==> result0 == feeOf(f.raw, d)
+
+//@ func (*Manager).UnitPrices props C13
+//@   reveal price last
+//@   requires wellFormed(f)
+//@   ensures forall i int :: 0 <= i && i < 5 ==> result[i] == price(f.raw, i)
+
+//@ func (*Manager).UnitsConsumed props C12
+//@   reveal price last
+//@   requires wellFormed(f)
+//@   ensures forall i int :: 0 <= i && i < 5 ==> result[i] == last(f.raw, i)
+
+//@ func (*Manager).UnitPrice props C13
+//@   reveal price last
+//@   requires wellFormed(f) && 0 <= d && d < 5
+//@   ensures result == price(f.raw, d)
+//@ func (*Manager).LastConsumed props C12
+//@   reveal price last
+//@   requires wellFormed(f) && 0 <= d && d < 5
+//@   ensures result == last(f.raw, d)
+//@ func (*Manager).Window props C13
+//@   reveal price last
+//@   requires wellFormed(f) && 0 <= d && d < 5
+//@   ensures result == winOf(f.raw, d)
+//@ func (*Manager).SetUnitPrice props C13 C27
+//@   reveal price last
+//@   requires wellFormed(f) && 0 <= d && d < 5
+//@   modifies f.raw[]
+//@   ensures price(f.raw, d) == price
+//@   ensures forall j int :: 0 <= j && j < 488 && (j < 8 + 96*d || j >= 8 + 96*d + 8) ==> f.raw[j] == old(f.raw[j])
+
+// ---- ComputeNext: the next manager holds, per dimension, the rule's next price and the
+// rolled/updated window, zero consumption, and the new timestamp ----
+//@ func Rules.GetWindowTargetUnits
+//@   pure
+//@ func Rules.GetUnitPriceChangeDenominator
+//@   pure
+//@ func Rules.GetMinUnitPrice
+//@   pure
+//@ func Rules.GetMaxBlockUnits
+//@   pure
+//@ func (*Manager).ComputeNext props C13 C12
+//@   reveal-asserts price last slot
+//@   requires wellFormed(f) && currTime >= 0
+//@   requires forall i int :: 0 <= i && i < 5 ==> Rules.GetWindowTargetUnits(r)[i] > 0 && Rules.GetUnitPriceChangeDenominator(r)[i] > 0
+//@   let sinceS = (currTime / 1000 - be64(f.raw, 0)) % 18446744073709551616
+//@   let kk = ite(sinceS > 10, sinceS / 10, 1)
+//@   at call 5 assert since == sinceS
+//@   loop 1 invariant since == sinceS
+//@   loop 1 invariant 0 <= i && i <= 5 && len(bytes) == 488 && be64(bytes, 0) == currTime / 1000 && wellFormed(f)
+//@   at call 6 assert nextUnitPrice == nextFromTotal(price(f.raw, i), total(winOf(f.raw, i), last(f.raw, i), since), targetUnits[i], unitPriceChangeDenom[i], minUnitPrice[i], ite(since > 10, since / 10, 1))
+//@   at call 6 assert forall s int :: 0 <= s && s < 10 ==> window.slot(nextUnitWindow, s) == upd(winOf(f.raw, i), last(f.raw, i), since, s)
+//@   at call 10 assert start == 8 + 96*i
+//@   at call 10 assert price(bytes, i) == nextUnitPrice
+//@   loop 1 assert forall j int :: 0 <= j && j < 488 && (j < 8 + 96*i || j >= 8 + 96*i + 88) ==> bytes[j] == pre(bytes[j])
+//@   loop 1 assert forall d int :: 0 <= d && d < i ==> price(bytes, d) == pre(price(bytes, d))
+//@   loop 1 assert forall d int :: 0 <= d && d < i ==> last(bytes, d) == pre(last(bytes, d))
+//@   loop 1 assert last(bytes, i) == 0
+//@   loop 1 assert forall d int, s int :: 0 <= d && d < i && 0 <= s && s < 10 ==> window.slot(winOf(bytes, d), s) == pre(window.slot(winOf(bytes, d), s))
+//@   loop 1 assert price(bytes, i) == nextFromTotal(price(f.raw, i), total(winOf(f.raw, i), last(f.raw, i), since), targetUnits[i], unitPriceChangeDenom[i], minUnitPrice[i], ite(since > 10, since / 10, 1))
+//@   loop 1 assert forall j int :: 8 + 96*i + 8 <= j && j < 8 + 96*i + 88 ==> bytes[j] == nextUnitWindow[j - (8 + 96*i + 8)]
+//@   loop 1 assert forall s int :: 0 <= s && s < 10 ==> window.slot(winOf(bytes, i), s) == window.slot(nextUnitWindow, s)
+//@   loop 1 assert forall s int :: 0 <= s && s < 10 ==> window.slot(winOf(bytes, i), s) == upd(winOf(f.raw, i), last(f.raw, i), since, s)
+//@   loop 1 invariant forall j int :: 8 + 96*i <= j && j < 488 ==> bytes[j] == 0
+//@   loop 1 invariant forall d int :: 0 <= d && d < i ==> last(bytes, d) == 0
+//@   loop 1 invariant forall d int :: 0 <= d && d < i ==> price(bytes, d) == nextFromTotal(price(f.raw, d), total(winOf(f.raw, d), last(f.raw, d), since), targetUnits[d], unitPriceChangeDenom[d], minUnitPrice[d], ite(since > 10, since / 10, 1))
+//@   loop 1 invariant forall d int, s int :: 0 <= d && d < i && 0 <= s && s < 10 ==> window.slot(winOf(bytes, d), s) == upd(winOf(f.raw, d), last(f.raw, d), since, s)
+//@   ensures len(result.raw) == 488 && be64(result.raw, 0) == currTime / 1000
+//@   ensures forall i int :: 0 <= i && i < 5 ==> last(result.raw, i) == 0
+//@   ensures forall i int :: 0 <= i && i < 5 ==> price(result.raw, i) == nextFromTotal(price(f.raw, i), total(winOf(f.raw, i), last(f.raw, i), sinceS), Rules.GetWindowTargetUnits(r)[i], Rules.GetUnitPriceChangeDenominator(r)[i], Rules.GetMinUnitPrice(r)[i], kk)
+//@   ensures forall i int, s int :: 0 <= i && i < 5 && 0 <= s && s < 10 ==> window.slot(winOf(result.raw, i), s) == upd(winOf(f.raw, i), last(f.raw, i), sinceS, s)
+
+// The encoded fee state decodes to the same prices, windows and consumption:
+// Bytes exposes the raw state and NewManager adopts it unchanged.
+//@ func (*Manager).Bytes props C13
+//@   reveal price last
+//@   ensures result == f.raw
+//@ func NewManager props C13 C27
+//@   ensures len(raw) > 0 ==> result.raw == raw
+//@   ensures len(raw) == 0 ==> len(result.raw) == 488 && forall j int :: 0 <= j && j < 488 ==> result.raw[j] == 0
